@@ -106,6 +106,11 @@ class Run(object):
                              b"Oct 03 12:00:01.000 [warn] Opening Control liste"]
                     self.nstd = getattr(self, "nstd", 0) + 1
                     self.pp.outReceived(lines[self.nstd % len(lines)])
+            elif a == "Stderr":
+                try:
+                    self.pp.errReceived(b"Oct 03 12:00:00.000 [warn] something went to stderr\n")
+                except RuntimeError:
+                    pass        # the process transport logs what errReceived raises; the pipes are closed, nothing else
             elif a == "Connect":
                 d = self.conn_d.pop(0)
                 if e["how"] == "refused":
